@@ -20,6 +20,34 @@ pub(crate) enum SerializeMode {
     NoInclude,
 }
 
+thread_local! {
+    /// How many [`NoIncludeGuard`]s are alive on this thread
+    static NO_INCLUDE_DEPTH: std::cell::Cell<usize> = std::cell::Cell::new(0);
+}
+
+/// While this guard is alive, everything the *current thread* serialises is written in full rather than as
+/// an `@include` reference: used when a resource or dataset itself (the stand-off file) is being written.
+/// The state is per thread, so that one thread writing a resource does not change what another thread's
+/// serialisation of the store emits.
+pub(crate) struct NoIncludeGuard;
+
+impl NoIncludeGuard {
+    pub(crate) fn new() -> Self {
+        #[cfg(stam_verif)]
+        verif_sched::verif_yield("mode:write");
+        NO_INCLUDE_DEPTH.with(|depth| depth.set(depth.get() + 1));
+        Self
+    }
+}
+
+impl Drop for NoIncludeGuard {
+    fn drop(&mut self) {
+        #[cfg(stam_verif)]
+        verif_sched::verif_yield("mode:write");
+        NO_INCLUDE_DEPTH.with(|depth| depth.set(depth.get() - 1));
+    }
+}
+
 impl Default for SerializeMode {
     fn default() -> Self {
         Self::NoInclude
@@ -317,19 +345,14 @@ impl Config {
         self.debug
     }
 
-    /// Sets the mode for (de)serialization. This is a low-level method that you won't need directly.
-    pub(crate) fn set_serialize_mode(&self, mode: SerializeMode) {
-        #[cfg(stam_verif)]
-        verif_sched::verif_yield("mode:write");
-        if let Ok(mut serialize_mode) = self.serialize_mode.write() {
-            *serialize_mode = mode;
-        }
-    }
-
     /// Gets the mode for (de)serialization. This is a low-level method that you won't need directly.
     pub(crate) fn serialize_mode(&self) -> SerializeMode {
         #[cfg(stam_verif)]
         verif_sched::verif_yield("mode:read");
+        if NO_INCLUDE_DEPTH.with(|depth| depth.get()) > 0 {
+            //the current thread is writing a stand-off file (or a single resource/dataset) itself
+            return SerializeMode::NoInclude;
+        }
         if let Ok(serialize_mode) = self.serialize_mode.read() {
             *serialize_mode
         } else {
